@@ -606,6 +606,10 @@ func (p *Program) tagKindAsserts() string {
 		}
 		fmt.Fprintf(&b, "(assert (= (uncomparable %d) %s))\n(assert (= (ptrlike %d) %s))\n(assert (= (slicelike %d) %s))\n", i+1, unc, i+1, ptr, i+1, sl)
 	}
+	// the nil interface (tag 0) has no dynamic type
+	b.WriteString("(assert (not (slicelike 0)))\n(assert (forall ((t!k Int)) (! (not (and (ptrlike t!k) (slicelike t!k))) :pattern ((slicelike t!k)))))\n")
+	// an interface value holding a reference (pointer, map, func, chan) is determined by its dynamic type and the reference
+	b.WriteString("(assert (forall ((x!e Iface)) (! (=> (ptrlike (tag x!e)) (= x!e (box_Int (tag x!e) (pl_Int x!e)))) :pattern ((pl_Int x!e)))))\n")
 	return b.String()
 }
 
